@@ -132,6 +132,20 @@ func MinMaxList(which, elemTs, sfx string) *Call {
 	return &Call{Plugin: strings.ToLower(which), Fn: fn, PNames: []string{"l", "d"}, PTypes: []string{"[]" + elemTs, elemTs}, Result: elemTs, ExprFn: call(fn)}
 }
 
+// MinMaxListNil passes an untyped nil as the default (legal when the elements are pointers, slices or maps).
+func MinMaxListNil(which, elemTs, sfx string) *Call {
+	fn := "derive" + which + "L" + sfx
+	return &Call{Plugin: strings.ToLower(which), Fn: fn, PNames: []string{"l"}, PTypes: []string{"[]" + elemTs}, Result: elemTs,
+		ExprFn: func(a []string) string { return fn + "(" + a[0] + ", nil)" }}
+}
+
+// ContainsNil looks for an untyped nil.
+func ContainsNil(elemTs, sfx string) *Call {
+	fn := "deriveContains" + sfx
+	return &Call{Plugin: "contains", Fn: fn, PNames: []string{"l"}, PTypes: []string{"[]" + elemTs}, Result: "bool",
+		ExprFn: func(a []string) string { return fn + "(" + a[0] + ", nil)" }}
+}
+
 func MinMaxTwo(which, elemTs, sfx string) *Call {
 	fn := "derive" + which + "T" + sfx
 	return &Call{Plugin: strings.ToLower(which), Fn: fn, PNames: []string{"a", "b"}, PTypes: []string{elemTs, elemTs}, Result: elemTs, ExprFn: call(fn)}
